@@ -1,6 +1,8 @@
 pub mod catalogue;
 pub mod desc;
 pub mod doc;
+pub mod docgen;
 pub mod emit;
+pub mod model;
 pub mod mval;
 pub mod rng;
